@@ -9,13 +9,16 @@ package main
 // only below the lowest height the active episode tampers with; the three team
 // (malicious) peers announce T+1 (T+2 for tampering that leaves T justified) and
 // share the director: whichever of them is asked for a tampered height serves the
-// tampered block, everything else is served genuinely. An episode ends when the
-// node's verifier refused (log line "error in validation" of poolRoutine), when
-// the sender was dropped in Receive, or (tampering that leaves T justified) when T
-// was applied and the altered T+1 was refused as first block afterwards. Peers
-// that served tampered blocks then leave and come back (a block stays in the
-// pool's requester until its sender is removed). Between episodes requests are
-// held. At the end the team leaves one by one, H announces and serves everything.
+// tampered block (to every request for it while the episode is open), everything
+// else up to T+1 is served genuinely. An episode ends when the node's verifier
+// refused (log line "error in validation" of poolRoutine, seen through a zap core
+// installed in place of the node's logger), when the sender was dropped in
+// Receive, or (tampering that leaves T justified) when T was applied and the
+// altered T+1 was refused as first block afterwards. Then every peer leaves and
+// comes back, one at a time (a block stays in the pool's requester until its
+// sender is removed; a blamed peer stays connected with stale requests). Between
+// episodes requests are held. At the end the team leaves one by one, H announces
+// and serves everything.
 //
 // Mix scenarios: H and the team all announce the full height; every team answer
 // is tampered with probability p (random mutation for that height), answers are
@@ -126,6 +129,7 @@ type director struct {
 	active    *episode
 	final     bool
 	hLimit    int64
+	prevName  string
 	teamClaim int64
 	held      []heldReq
 	lastMut   map[int64]string
@@ -156,7 +160,7 @@ type hookCore struct {
 	m sync.Mutex
 }
 
-func (c *hookCore) Enabled(l zapcore.Level) bool       { return l >= zapcore.InfoLevel }
+func (c *hookCore) Enabled(l zapcore.Level) bool        { return l >= zapcore.InfoLevel }
 func (c *hookCore) With(f []zapcore.Field) zapcore.Core { return c }
 func (c *hookCore) Sync() error                         { return nil }
 func (c *hookCore) Check(e zapcore.Entry, ce *zapcore.CheckedEntry) *zapcore.CheckedEntry {
@@ -278,6 +282,9 @@ func (d *director) closeEpisode(e *episode, outcome string) {
 	e.closed, e.outcome = true, outcome
 	d.active = nil
 	d.run.Count("episodes_"+outcome, 1)
+	if outcome == "target-already-applied" {
+		d.run.Distinct("episodes_whose_target_was_applied_before_judgement", fmt.Sprintf("%s@%d", e.mut.name, e.spec.T))
+	}
 	if outcome != "unserved" && outcome != "target-already-applied" {
 		pos := "first"
 		if e.mut.onT == nil {
@@ -465,10 +472,12 @@ func (d *director) respond(p *peerCtl, rp *rawPeer, h int64) (out []outMsg) {
 		}
 		// tampering that leaves T justified is served to every request for T+1 until T is applied
 		// (the pool may time a slow peer out and ask somebody else)
-		again := e.mut.expect == "accept" && !e.applied && h == e.spec.T+1 && e.mut.onT1 != nil
-		if e.tamper[h] && ((h == e.spec.T && e.mut.onT != nil && !e.servedT) || (h == e.spec.T+1 && e.mut.onT1 != nil && (!e.servedT1 || again))) {
+		// likewise a tampered block the verifier has to refuse is served to every request for that
+		// height while the episode is open: the genuine pair cannot get through before the judgement
+		again := (e.mut.expect == "accept" && !e.applied && h == e.spec.T+1 && e.mut.onT1 != nil) || e.mut.expect == "reject"
+		if e.tamper[h] && ((h == e.spec.T && e.mut.onT != nil && (!e.servedT || again)) || (h == e.spec.T+1 && e.mut.onT1 != nil && (!e.servedT1 || again))) {
 			var msgs [][]byte
-			if h == e.spec.T && e.mut.onT != nil && !e.servedT {
+			if h == e.spec.T && e.mut.onT != nil {
 				msgs, e.servedT = e.mut.onT(e.x), true
 			} else {
 				msgs, e.servedT1 = e.mut.onT1(e.x), true
@@ -512,9 +521,11 @@ func (d *director) activateNextLocked() *episode {
 		if d.storeHeight() >= e.spec.T {
 			e.closed, e.outcome = true, "target-already-applied"
 			d.run.Count("episodes_target-already-applied", 1)
+			d.run.Distinct("episodes_whose_target_was_applied_before_activation", fmt.Sprintf("%s@%d after %s", e.mut.name, e.spec.T, d.prevName))
 			continue
 		}
 		d.active = e
+		d.prevName = fmt.Sprintf("%s@%d", e.mut.name, e.spec.T)
 		if e.minT-1 > d.hLimit {
 			d.hLimit = e.minT - 1
 		}
@@ -660,6 +671,9 @@ func (d *director) runEpisodes() {
 				case e.mut.expect == "reject" && sh >= e.spec.T:
 					// the genuine pair got through before the tampered answer was judged
 					d.closeEpisode(e, "target-already-applied")
+					if c := e.spec.T + 2; c > d.teamClaim && c <= d.c.top {
+						d.teamClaim = c // somebody must still claim more than the node has
+					}
 				case !served && time.Since(start) > 8*time.Second:
 					d.closeEpisode(e, "unserved")
 				case !served && time.Since(start) > 1500*time.Millisecond && rearmed < 1:
